@@ -283,6 +283,7 @@ func hostile(r *vf.Run) {
 	const maxRestarts = 40
 	sampled := 0
 	vkeys := map[string]int{}
+	firstWit := map[string]interface{}{}
 	secs := map[string]float64{}
 	vf.Parallel(len(bs), workers, func(bi int) {
 		start := uint64(0)
@@ -360,6 +361,19 @@ func hostile(r *vf.Run) {
 			case "viol":
 				r.Violation(ln.Key, ln.What, ln.Witness)
 				mu.Lock()
+				if _, ok := firstWit[ln.Key]; !ok && len(firstWit) < 40 {
+					// vf keeps replay files for the first 10 keys only: keep one compact witness per key
+					w := map[string]interface{}{"what": ln.What}
+					for _, k := range []string{"tag", "cmd", "magic", "payload_hex", "stream_hex", "consumed", "reserialized_hex", "panic", "stack", "allocated"} {
+						if v, ok := ln.Witness[k]; ok {
+							if sv, ok := v.(string); ok && len(sv) > 1400 {
+								v = sv[:1400] + "…"
+							}
+							w[k] = v
+						}
+					}
+					firstWit[ln.Key] = w
+				}
 				vkeys[ln.Key]++
 				mu.Unlock()
 			case "ctr":
@@ -413,6 +427,9 @@ func hostile(r *vf.Run) {
 	// duplicate cases were logged by the children; count them as trivial evaluations
 	r.Evals(int(r.Counter("duplicate_case")))
 	r.Extra("hostile_violation_keys", vkeys)
+	if len(firstWit) > 0 {
+		r.Extra("hostile_first_witness_per_key", firstWit)
+	}
 	if os.Getenv("C24_TIMING") != "" {
 		r.Extra("batch_seconds", secs)
 	}
